@@ -63,9 +63,11 @@ def build_kernel(t, d, kinds=None, encoding_type="logarithm"):
     from syne_tune.optimizer.schedulers.searchers.bayesopt.gpautograd.mean import ScalarMeanFunction
     from syne_tune.optimizer.schedulers.searchers.bayesopt.gpautograd.warping import WarpedKernel, Warping
 
-    kind = t.weighted([(w, k_) for w, k_ in [(4, "matern"), (2, "warped"), (2, "product"), (1, "expdecay")] if kinds is None or k_ in kinds])
+    kind = t.weighted([(w, k_) for w, k_ in [(4, "matern"), (2, "warped"), (2, "product"), (1, "expdecay"), (1, "product-expdecay"), (1, "warped-product-expdecay")] if kinds is None or k_ in kinds])
     if kind == "product" and d < 2:
         kind = "matern"
+    if kind.endswith("product-expdecay") and d < 2:
+        kind = "expdecay"
 
     def matern(dim):
         ard = t.bool() and dim > 1
@@ -120,17 +122,35 @@ def build_kernel(t, d, kinds=None, encoding_type="logarithm"):
         k.set_params(params)
         ref = RefKernel("product", d1=d1, k1=ref_of_matern(k1, params, "kernel1_"), k2=ref_of_matern(k2, params, "kernel2_"))
         return k, ref, "product", d, params
-    kx, _, _ = matern(d)
+    # compositions with the exponential-decay resource kernel (no harness formula: black-box kernels)
+    d_first = t.int(1, d - 1) if kind.endswith("product-expdecay") else 0
+    kx, _, _ = matern(d - d_first)
     mx = ScalarMeanFunction()
     delta = t.weighted([(2, None), (1, 0.0), (1, 1.0), (2, "mid")])
     if delta == "mid":
         delta = t.float(0.05, 0.95)
     k = ExponentialDecayResourcesKernelFunction(kx, mx, encoding_type=encoding_type, delta_fixed_value=delta)
+    if d_first:
+        k1, _, _ = matern(d_first)
+        k = ProductKernelFunction(k1, k)
+        if kind.startswith("warped"):
+            # the warping covers the trailing coordinates incl. the resource one (inputs of this kind lie in the unit cube)
+            k = WarpedKernel(k, [Warping(d + 1, (t.int(0, d), d + 1), encoding_type=encoding_type)])
     k.collect_params().initialize()
-    params = _fit_encoding({n_: draw_param(t, n_) for n_ in k.get_params() if n_ != "delta"}, encoding_type)
-    if "delta" in k.get_params():
-        params["delta"] = t.float(0.0, 1.0)
+    params = _fit_encoding({n_: draw_param(t, n_) for n_ in k.get_params() if not n_.endswith("delta")}, encoding_type)
+    for n_ in k.get_params():
+        if n_.endswith("delta"):
+            params[n_] = t.float(0.0, 1.0)
     k.set_params(params)
-    return k, None, "expdecay", d + 1, dict(params, delta_fixed=delta)
+    return k, None, kind, d + 1, dict(params, delta_fixed=delta)
 
 
+
+
+def resource_value(t, klabel):
+    """Value of the trailing resource coordinate of kernels built on the exponential-decay kernel (None for other kernels)."""
+    if "expdecay" not in klabel:
+        return None
+    if klabel.startswith("warped"):
+        return t.int(1, 9) / 10.0  # warped inputs lie in the unit cube
+    return float(t.int(1, 9))
